@@ -358,4 +358,17 @@ theorem addDays_weekday (t t' : DT) (k : Int) (h : t.addDays k = .ok t') :
   unfold DT.weekday weekdayOf DT.ord at *
   omega
 
+theorem ofMicrosN_ok (n : Nat) (h1 : 86400000000 ≤ n) (h2 : n < 3652060 * 86400000000) : ∃ t, ofMicrosN n = .ok t := by
+  unfold ofMicrosN
+  have e : dayUs = 86400000000 := rfl
+  have em : maxOrd = 3652059 := rfl
+  rw [e, em]
+  have hq1 : 1 ≤ n / 86400000000 := by omega
+  have hq2 : n / 86400000000 ≤ 3652059 := by omega
+  have : ¬ (n / 86400000000 < 1 ∨ n / 86400000000 > 3652059) := by omega
+  simp only [this, if_false]
+  exact ⟨_, rfl⟩
+
+theorem ts_fin (A P Q frac : Nat) (hm : A + (P + 0) = Q) : A + (P + frac) = Q + frac := by omega
+
 end DP
